@@ -45,10 +45,14 @@ type VerifyOpts struct {
 
 func (w *World) newExec(fn *ssa.Function, ct *Contract, opts VerifyOpts, cuts map[loopKey]bool) *Exec {
 	c := NewCtx()
+	rootName := ""
+	if fn != nil {
+		rootName = fnDisplay(fn)
+	}
 	for k, d := range w.SpecDecls {
 		c.SpecFns[k] = d
 	}
-	e := &Exec{C: c, Prog: w.Prog, W: w, Root: fn, RootName: fnDisplay(fn), metaAll: map[int]*ObjMeta{}, labelCount: map[string]int{}, instrLabel: map[ssa.Instruction]string{},
+	e := &Exec{C: c, Prog: w.Prog, W: w, Root: fn, RootName: rootName, metaAll: map[int]*ObjMeta{}, labelCount: map[string]int{}, instrLabel: map[ssa.Instruction]string{},
 		Inlined: map[string]bool{}, UsedContracts: map[string]bool{}, UsedIntrinsics: map[string]bool{}, Abstracted: map[string]bool{},
 		MaxSteps: 3000000, MaxPaths: 4000, loopsCache: map[*ssa.Function]*loopInfo{}, symExit: map[*ssa.BasicBlock]bool{}, cutHeaders: cuts, globalIDs: map[*ssa.Global]int{}}
 	if opts.MaxPaths > 0 {
@@ -447,4 +451,37 @@ func (e *Exec) loopEnv(st *State, fr *Frame, phis []*ssa.Phi, vals []Val) *SpecE
 		env.vars[ph.Name()] = sv{V: vals[k], T: ph.Type()}
 	}
 	return env
+}
+
+// VerifyLemma: a pure specification-level obligation: requires ==> ensures over ghost variables.
+func (w *World) VerifyLemma(ct *Contract, pkg *types.Package) (res *FnResult) {
+	w.cur = ct
+	e := w.newExec(nil, ct, VerifyOpts{}, map[loopKey]bool{})
+	e.RootName = "lemma " + strings.TrimPrefix(ct.Key, "lemma:"+modulePath+"/")
+	res = &FnResult{Key: ct.Key, Name: e.RootName, Contract: ct, Ctx: e.C, Exec: e, Mode: ct.Mode}
+	defer func() {
+		if r := recover(); r != nil {
+			if b, ok := r.(Bail); ok {
+				res.OutOfSubset = b.Reason
+				res.Obls = nil
+				return
+			}
+			panic(r)
+		}
+	}()
+	st := &State{Heap: map[int]Val{}, Maps: map[int]*MapState{}}
+	env := &SpecEnv{e: e, st: st, vars: map[string]sv{}, pkg: pkg, where: e.RootName}
+	for _, g := range ct.Ghosts {
+		env.vars[g.Name] = e.ghostVal(st, g)
+	}
+	for _, r := range ct.Requires {
+		st.assume(env.Bool(r.Expr))
+	}
+	e.cover(st, "requires")
+	for _, en := range ct.Ensures {
+		e.obligeL(st, "lemma", en.Label, token.Position{}, env.Bool(en.Expr), en.Props)
+	}
+	res.Obls = e.Obls
+	res.Paths = 1
+	return res
 }
